@@ -22,6 +22,7 @@ type BlockOpts struct {
 	PayoutDelta int64         // add to the miner payout (hastings); 0 = correct
 	MinerAddr   *types.Address
 	ForceV1     bool // build a v1 block even when v2 is allowed (no V2 data)
+	ForceV2     bool // attach v2 block data even below the allow height (so that v2 transactions are actually submitted)
 	NoSeal      bool // skip nonce search
 }
 
@@ -108,7 +109,7 @@ func (w *World) BuildBlock(v1 []types.Transaction, v2 []types.V2Transaction, o B
 		MinerPayouts: []types.SiacoinOutput{{Value: reward, Address: addr}},
 		Transactions: v1,
 	}
-	if child >= w.Net.HardforkV2.AllowHeight && !o.ForceV1 {
+	if (child >= w.Net.HardforkV2.AllowHeight || o.ForceV2) && !o.ForceV1 {
 		b.V2 = &types.V2BlockData{Height: child, Transactions: v2}
 		b.V2.Commitment = cs.Commitment(addr, b.Transactions, b.V2.Transactions)
 	}
